@@ -164,6 +164,17 @@ fn document(path: Option<&Path>) -> Result<xml_dom::XmlDocument, Box<dyn Error>>
     Ok(dom)
 }
 
+/// The document that creates nodes for `node`: a document node has no owner but is one.
+fn document_of<T>(node: &T) -> xml_dom::XmlDocument
+where
+    T: xml_dom::Node + AsNode,
+{
+    match node.as_node() {
+        xml_dom::XmlNode::Document(v) => v,
+        _ => node.owner_document().unwrap(),
+    }
+}
+
 /// `prefix:local` of an element or attribute of the replacement value.
 fn qualified_name<T>(node: &T) -> Result<String, Box<dyn Error>>
 where
@@ -221,7 +232,7 @@ where
 
 fn append_child<T>(node: T, value: &str) -> Result<(), Box<dyn Error>>
 where
-    T: Clone + xml_dom::Node + xml_dom::NodeMut,
+    T: Clone + xml_dom::Node + xml_dom::NodeMut + AsNode,
 {
     let new_value = parse_node(value)?;
 
@@ -234,14 +245,11 @@ where
 
 fn append_child_to_tree<T>(node: T, child: xml_dom::XmlNode) -> Result<(), Box<dyn Error>>
 where
-    T: Clone + xml_dom::Node + xml_dom::NodeMut,
+    T: Clone + xml_dom::Node + xml_dom::NodeMut + AsNode,
 {
     match child {
         xml_dom::XmlNode::Attribute(v) => {
-            let mut n = node
-                .owner_document()
-                .unwrap()
-                .create_attribute(qualified_name(&v)?.as_str())?;
+            let mut n = document_of(&node).create_attribute(qualified_name(&v)?.as_str())?;
             n.borrow_mut().set_value(v.value()?.as_str())?;
 
             if let Some(mut attr) = node.attributes() {
@@ -251,24 +259,15 @@ where
             }
         }
         xml_dom::XmlNode::CData(v) => {
-            let n = node
-                .owner_document()
-                .unwrap()
-                .create_cdata_section(v.data()?.as_str());
+            let n = document_of(&node).create_cdata_section(v.data()?.as_str());
             node.append_child(n.as_node())?;
         }
         xml_dom::XmlNode::Comment(v) => {
-            let n = node
-                .owner_document()
-                .unwrap()
-                .create_comment(v.data()?.as_str());
+            let n = document_of(&node).create_comment(v.data()?.as_str());
             node.append_child(n.as_node())?;
         }
         xml_dom::XmlNode::Element(v) => {
-            let n = node
-                .owner_document()
-                .unwrap()
-                .create_element(qualified_name(&v)?.as_str())?;
+            let n = document_of(&node).create_element(qualified_name(&v)?.as_str())?;
             node.append_child(n.as_node())?;
 
             if let Some(attributes) = v.attributes() {
@@ -283,7 +282,7 @@ where
         }
         xml_dom::XmlNode::EntityReference(v) => {
             let name = v.node_name();
-            let document = node.owner_document().unwrap();
+            let document = document_of(&node);
             if name.starts_with("&#") {
                 // a character reference: DOM has no factory for it.
                 match v.value()?.as_str() {
@@ -306,17 +305,12 @@ where
             }
         }
         xml_dom::XmlNode::PI(v) => {
-            let n = node
-                .owner_document()
-                .unwrap()
+            let n = document_of(&node)
                 .create_processing_instruction(v.target().as_str(), v.data().as_str())?;
             node.append_child(n.as_node())?;
         }
         xml_dom::XmlNode::Text(v) => {
-            let n = node
-                .owner_document()
-                .unwrap()
-                .create_text_node(v.data()?.as_str());
+            let n = document_of(&node).create_text_node(v.data()?.as_str());
             node.append_child(n.as_node())?;
         }
         _ => {
